@@ -53,7 +53,7 @@ def plan(tier, seed):
     for s in (0, 1, 2):
         for base in ({'p': 2, 'q': 1, 'r': 0}, {'p': 2, 'q': 0, 'r': 1}, {'signature': [-1, 0, 1]}, {'signature': [1, -1]}):
             A.append(dict(base, start_index=s))
-    U = [{'kind': 'relabel', 'cfg': c, 'per_op': 1 if tier == 'quick' else 2} for c in A]
+    U = [{'kind': 'relabel', 'cfg': c, 'per_op': 3 if tier == 'quick' else 3} for c in A]
     # rejection: ordered pairs among ~30 algebras d <= 3
     R = [{'p': 2, 'q': 0, 'r': 0}, {'p': 1, 'q': 1, 'r': 0}, {'signature': [-1, 1]}, {'signature': [1, -1]}, {'p': 0, 'q': 2, 'r': 0},
          {'p': 1, 'q': 0, 'r': 1}, {'signature': [1, 0]}, {'signature': [0, 1]}, {'p': 3, 'q': 0, 'r': 0}, {'p': 2, 'q': 1, 'r': 0},
